@@ -394,6 +394,22 @@ def run(ctx):
                   [('r', 1, 3), ('r', 1, 0)], [('r', 3, 3), ('r', 3, 5)], [('r', 0, 3), ('r', 3, 5)],
                   [('r', 0, 3), ('r', 4, 5)], [('r', 2, None), ('r', 0, 1), ('i', 5), ('i', 1)]):
         exprs.append((extra, 'list', render(extra, rng, 'list')))
+    if ctx.replay:
+        # re-execute the single case of a replay file through the same pipeline
+        R = json.load(open(ctx.replay))
+        dbs, exprs = [], []
+        tk = None if R.get('tokens') is None else [tuple(t) for t in R['tokens']]
+        if 'db' in R and 'query' in R:
+            q = dict(R['query'])
+            q['toks'] = tk
+            q['names'] = {k: v for k, v in q['params'].items() if k != 'runids' and v is not None}
+            rid = q['params'].get('runids')
+            q['form'] = None if rid is None else 'str' if isinstance(rid, str) else 'list' if isinstance(rid, list) else 'scalar'
+            q.setdefault('index', 0)
+            q.setdefault('limit', None)
+            dbs = [{'catalog': R['db']['catalog'], 'prime': R['db']['prime'], 'queries': [q]}]
+        if 'runids' in R and tk is not None:
+            exprs = [(tk, 'replay', R['runids'])]
     pure = []
     for toks, form, arg in exprs:
         pure.append({'op': 'scrub', 'runids': arg})
@@ -656,7 +672,11 @@ def run(ctx):
     for d in dbs[:2]:
         q = d['queries'][0]
         ctx.sample({'prime_keys': len(d['prime']), 'query': {k: q[k] for k in ('op', 'params', 'index', 'limit') if k in q}})
-    ctx.sample({'scrub': exprs[0][2], 'result': scrub_obs[0]})
+    if exprs:
+        ctx.sample({'scrub': exprs[0][2], 'result': scrub_obs[0]})
+    if ctx.replay:
+        ctx.note('replayed', ctx.replay)
+        ctx.count(evaluations=1, nontrivial_keys=[('replay', 1), ('replay', 2)])
 
 
 # fingerprints of the modelled functions at the time the model was written; a
